@@ -6,6 +6,10 @@
 # 1 if at least one reported a VIOLATION (mutant detected), 2 on machinery errors.
 tree="$1"; tier="$2"; shift 2
 ev=/dev/shm/mut-evidence-$$; mkdir -p "$ev"
+# cargo decides freshness by mtime: files of this tree may be OLDER than the artefacts a previous
+# mutant left in target-*-mut, which would silently keep the previous mutant's code for crates this
+# tree does not touch. Touch every source file of the tree so that all path crates are rebuilt from it.
+find "$tree/crates" "$tree/Cargo.toml" "$tree/Cargo.lock" -type f \( -name '*.rs' -o -name 'Cargo.toml' -o -name 'Cargo.lock' -o -name '*.md' -o -name '*.policy' -o -name '*.pest' \) -exec touch {} + 2>/dev/null
 rc=0
 for id in "$@"; do
   out=$(unshare -m bash -c "mount --bind '$tree' /repo && cd /verif && VERIF_TARGET_SUFFIX=${MUT_SUFFIX:--mut} VERIF_EVIDENCE_DIR=$ev ./check $id --tier $tier" 2>&1)
